@@ -1467,7 +1467,7 @@ example : scheduleDocs (⟨[(1, ["g1", "r1"]), (0, ["g0", "r0"])],
 
 /-- every mapping-iteration site of the loaders, with the lemma that makes the order of that mapping's entries irrelevant. -/
 def coveredSites : List ((String × String) × String) := [
-  (("PrimaiteGame.from_config", "sorted(node_cfg['network_interfaces'].items(), key=lambda item: item[0])"), "C20_site_network_interfaces_items"),
+  (("PrimaiteGame.from_config", "sorted(node_cfg['network_interfaces'].items(), key=lambda item: int(item[0]))"), "C20_site_network_interfaces_items"),
   (("Node._install_system_software", "self.SYSTEM_SOFTWARE.items()"), "class constant, not part of the scenario"),
   (("Router.from_config", "ports.items()"), "C20_site_ports_items"),
   (("Router.from_config", "acl.items()"), "C20_site_acl_items"),
@@ -1508,5 +1508,51 @@ uninstalled BEFORE the new instance is entered into `node.services/applications`
 table. -/
 theorem C20_gen_install_shape : Gen.Config.installGuardMapWrites = 1 ∧ Gen.Config.installGuardOnlyBare = true ∧
     Gen.Config.installReplacesNamesakeFirst = true ∧ Gen.Config.uninstallClearsClassMap = true := by decide
+
+/-- `EpisodeListScheduler.__call__` returns the value it has just parsed from the joined text — a fresh object on every call —,
+stores nothing on the instance or the class, and the class has no field beyond the four it documents (so nowhere to keep a parsed
+document); `ConstantEpisodeScheduler` hands out a deep copy. This is what lets `scheduleDocs` be a FUNCTION of the files: the
+loader may do what it likes to the object it is given without the next episode seeing it. -/
+theorem C20_gen_scheduler_fresh : Gen.Config.scheduleFreshPerCall = true ∧
+    Gen.Config.scheduleClassFields = ["schedule", "episode_data", "base_scenario", "_exceeded_episode_list"] ∧
+    Gen.Config.constantSchedulerCopies = true := by decide
+
+/-- no loader function pops from, deletes from, clears or item-assigns the mapping it is GIVEN (a parameter that has not been
+re-bound to a copy first): a second build from the same parsed scenario sees the same scenario. `build` is a function of the
+scenario alone for exactly this reason. -/
+theorem C20_gen_loader_reads_only : Gen.Config.loaderConsumesArgument = [] := by decide
+
+/-- every software constructor applies its configured options by plain assignment (`self.attr = self.config.opt`, at most under
+`if self.config.opt is not None`): no loop, no call fed with configured values, no test of the node's state — so the effect of
+an option cannot depend on the declared operating state of the node or on construction order, which is what the model assumes
+by carrying option mappings through unchanged. The table names, per class, the live attribute that carries each option (the rig
+reads the built value there). -/
+theorem C20_gen_software_options_applied : Gen.Config.softwareInitOtherConfigUses = [] ∧
+    Gen.Config.softwareInitApplies = [
+      ("C2Beacon", "c2_remote_connection", "c2_server_ip_address"),
+      ("DNSServer", "dns_table", "domain_mapping"),
+      ("DataManipulationBot", "data_manipulation_p_of_success", "data_manipulation_p_of_success"),
+      ("DataManipulationBot", "payload", "payload"),
+      ("DataManipulationBot", "port_scan_p_of_success", "port_scan_p_of_success"),
+      ("DataManipulationBot", "repeat", "repeat"),
+      ("DataManipulationBot", "server_ip_address", "server_ip"),
+      ("DataManipulationBot", "server_password", "server_password"),
+      ("DatabaseClient", "server_ip_address", "db_server_ip"),
+      ("DatabaseClient", "server_password", "server_password"),
+      ("DatabaseService", "backup_server_ip", "backup_server_ip"),
+      ("DoSBot", "dos_intensity", "dos_intensity"),
+      ("DoSBot", "max_sessions", "max_sessions"),
+      ("DoSBot", "payload", "payload"),
+      ("DoSBot", "port_scan_p_of_success", "port_scan_p_of_success"),
+      ("DoSBot", "repeat", "repeat"),
+      ("DoSBot", "target_ip_address", "target_ip_address"),
+      ("DoSBot", "target_port", "target_port"),
+      ("IOSoftware", "listen_on_ports", "listen_on_ports"),
+      ("NTPClient", "ntp_server", "ntp_server_ip"),
+      ("RansomwareScript", "payload", "payload"),
+      ("RansomwareScript", "server_ip_address", "server_ip"),
+      ("RansomwareScript", "server_password", "server_password"),
+      ("Software", "_fixing_countdown", "fixing_duration"),
+      ("Software", "health_state_actual", "starting_health_state")] := by decide
 
 end Primaite.Config
